@@ -805,8 +805,9 @@ def inline_private_calls(repo, cls, fn, depth=2, only=None, _seen=(), helper_tra
             # of the statement when nothing of the statement is evaluated before the call (no earlier call, no
             # conditional evaluation around it)
             hoisted = False
-            if isinstance(st, (ast.If, ast.Assign, ast.Return, ast.Expr, ast.AugAssign)):
-                roots = [st.test] if isinstance(st, ast.If) else [getattr(st, "value", None)]
+            if isinstance(st, (ast.If, ast.Assign, ast.Return, ast.Expr, ast.AugAssign, ast.For)):
+                # (the iterable of a `for` statement is evaluated once, before the loop)
+                roots = [st.test] if isinstance(st, ast.If) else [st.iter] if isinstance(st, ast.For) else [getattr(st, "value", None)]
                 roots = [r_ for r_ in roots if r_ is not None]
                 for root in roots:
                     parents = {}
@@ -847,6 +848,8 @@ def inline_private_calls(repo, cls, fn, depth=2, only=None, _seen=(), helper_tra
                                 return self.generic_visit(node)
                         if isinstance(st, ast.If):
                             st.test = Rep().visit(st.test)
+                        elif isinstance(st, ast.For):
+                            st.iter = Rep().visit(st.iter)
                         else:
                             st.value = Rep().visit(st.value)
                         changed[0] = True
